@@ -43,10 +43,19 @@ def main(tier):
         ops = hists[ex['index']]
         mode, opts = cfgs[ex['index']]
         pc = LC.precondition_class(ops)
+        if 'txn-off' in pc:
+            pc = 'txn-off'            # with transactions off every call processes at once (re-entrantly, too): one class whatever else the history has
         txnoff = ':txn-off' if 'txn-off' in pc else ''
         # actions still queued when the router is destroyed (transactions on, something after the last processTransaction)
-        last = max([i for i, o in enumerate(ops) if o[0] == 13] + [-1])
-        pending = 'txn-off' not in pc and any(o[0] not in (2, 5, 12, 13, 14) for o in ops[last + 1:])
+        txn_on, queued = True, False
+        for o in ops:
+            if o[0] == 13:
+                queued = False
+            elif o[0] == 14:
+                txn_on = bool(o[1])
+            elif o[0] not in (2, 5, 12):
+                queued = txn_on          # with transactions off the call processes everything queued so far
+        pending = queued
         errs = [json.loads(l) for l in ex['lines'] if '"error"' in l]
         if errs:
             e = errs[0]['error']
@@ -67,6 +76,8 @@ def main(tier):
                 key = ('terminate:' + (re.sub(r'[^A-Za-z0-9_>!=<.()-]+', '', m2.group(1))[:60] + ('@' + ml.group(2) + ':' + ml.group(1) if ml else '') if m2 else what[:40])) + ':' + pc
             if pending and 'visGraph.size()==0' in key:
                 key = 'router-destroyed-with-queued-actions:visGraph.size()==0'
+            elif pending and txnoff and 'removeFromGraph' in key:
+                key = 'router-destroyed-with-queued-actions:transactions-switched-off:Obstacle::removeFromGraph'
             vd.violation(key, '%s | mode=%d opts=%d ops=%s' % (what, mode, opts, ops), {'mode': mode, 'opts': opts, 'ops': ops, 'stderr_tail': txt[-3000:]})
         else:
             good.append(ex)
